@@ -194,6 +194,13 @@ def paramNames (rest : Val) (params : Val) : List Name :=
         | _      => [cs!"#<invalid-parameter-name>"])
     | none => [])
 
+/-- the `parameters` entry of `destructure-function` for a normal function (after the fix): the parameter symbols
+themselves, with `&` before the rest parameter -/
+def functionParams (rest : Val) (params : Val) : Val :=
+  .ofList ((listToVec params).getD [] ++ (match rest.restParam? with
+    | some last => [.symName cs!"&", last]
+    | none      => []))
+
 def metadataPlist (m : Meta) : Val :=
   let doc := Val.ofChars m.doc
   match m.loc.src with
@@ -474,7 +481,7 @@ def simpleNative (id : NativeId) (args : List Val) (depth : Nat) (st : St) : Out
   | .destructureFunction => arity1 cs!"destructure-function" args st fun f =>
       match f.get with
       | .fn k r p b e m =>
-        (.ok (plist [(cs!"kind", .symName k.name), (cs!"parameters", .ofList ((paramNames r p).map Val.symName)),
+        (.ok (plist [(cs!"kind", .symName k.name), (cs!"parameters", functionParams r p),
                      (cs!"body", b), (cs!"environment", e), (cs!"module", .symName m)]), st)
       | .native id =>
         (.ok (plist [(cs!"kind", .symName cs!"lambda"), (cs!"parameters", .ofList (id.params.map Val.symName)),
